@@ -75,6 +75,53 @@ def wrapsOf {σ α : Type} : List (Ev σ α) → List Nat
   | .wrap j :: es => j :: wrapsOf es
   | .req _ _ :: es => wrapsOf es
 
+/-! ### Several middleware values side by side -/
+
+/-- Several values `RequireBearerToken(…)` (a gateway-wide one, route-level ones), each made with
+its own options, and the wrappers made from them: the package has no state of its own (structural
+fact `bearer.package_vars_of_auth_go`), so a world is just its values. -/
+structure World (σ : Type) where
+  vals : List (Option (Opts σ))
+  /-- per wrapper: the value it was made from and the handler it was made for -/
+  wrappers : List (Nat × Nat)
+
+inductive WEv (σ α : Type) where
+  /-- `RequireBearerToken(verifier, opts)` -/
+  | make (opts : Option (Opts σ))
+  /-- `mw_v(h_j)` -/
+  | wrap (v j : Nat)
+  | req (w : Nat) (i : Input σ α)
+
+/-- A request through wrapper `w`: the one-value model of the value behind it, alone. -/
+def World.serveVia {σ α : Type} [DecidableEq σ] (wd : World σ) (w : Nat) (i : Input σ α) : SOut σ α :=
+  match wd.wrappers[w]? with
+  | none => .noWrapper
+  | some (v, j) =>
+    match wd.vals[v]? with
+    | none => .noWrapper
+    | some o => Sess.serveVia { opts := o, wrappers := [j] } 0 i
+
+def World.step {σ α : Type} [DecidableEq σ] (wd : World σ) : WEv σ α → World σ × SOut σ α
+  | .make o => ({ wd with vals := wd.vals ++ [o] }, .wrapped wd.vals.length)
+  | .wrap v j => ({ wd with wrappers := wd.wrappers ++ [(v, j)] }, .wrapped wd.wrappers.length)
+  | .req w i => (wd, wd.serveVia w i)
+
+def World.run {σ α : Type} [DecidableEq σ] (wd : World σ) : List (WEv σ α) → World σ × List (SOut σ α)
+  | [] => (wd, [])
+  | e :: es =>
+    let r := (wd.step e).1.run es
+    (r.1, (wd.step e).2 :: r.2)
+
+def makesOf {σ α : Type} : List (WEv σ α) → List (Option (Opts σ))
+  | [] => []
+  | .make o :: es => o :: makesOf es
+  | _ :: es => makesOf es
+
+def wrapsOfW {σ α : Type} : List (WEv σ α) → List (Nat × Nat)
+  | [] => []
+  | .wrap v j :: es => (v, j) :: wrapsOfW es
+  | _ :: es => wrapsOfW es
+
 /-! ### Requests in flight -/
 
 /-- Where the closure's run for one request stands. -/
